@@ -26,7 +26,7 @@ func checkC15(r *Report, p *Program) {
 	for _, key := range []string{"controller/common/api/v2.UniformObjectMap.InitGroup"} {
 		if f := fn(r, p, "R15.2", key); f != nil {
 			ok := true
-			for _, b := range f.Blocks {
+			for _, b := range engine.BlocksInl(f) {
 				for _, in := range b.Instrs {
 					if _, isMU := in.(*ssa.MapUpdate); isMU {
 						if unguarded(f, nil, in, func(l Lit) bool {
@@ -64,7 +64,7 @@ func r15_1(r *Report, p *Program) {
 		}
 		st := engine.ResultValue(ds[0].Instr, 0)
 		covered := map[string]bool{}
-		for _, b := range f.Blocks {
+		for _, b := range engine.BlocksInl(f) {
 			for i := range b.Succs {
 				if l, ok := engine.EdgeLit(b, i); ok && l.Pos && l.Op.String() == "==" && engine.SameValue(l.X, st) {
 					if s, isC := constStr(l.Y); isC {
@@ -83,7 +83,7 @@ func r15_1(r *Report, p *Program) {
 		// invalid ⇒ classifier's error returned
 		errV := engine.ResultValue(ds[0].Instr, 1)
 		var from []engine.Point
-		for _, b := range f.Blocks {
+		for _, b := range engine.BlocksInl(f) {
 			for i := range b.Succs {
 				if l, ok := engine.EdgeLit(b, i); ok && l.Pos && engine.SameValue(l.X, st) {
 					if s, isC := constStr(l.Y); isC && s == consts["invalid"] {
@@ -223,7 +223,7 @@ func r15_2(r *Report, p *Program) {
 	// foreign namespace for a namespaced parent is an error on both sides
 	for _, f := range []*ssa.Function{m, g} {
 		okE := false
-		for _, b := range f.Blocks {
+		for _, b := range engine.BlocksInl(f) {
 			for _, in := range b.Instrs {
 				rt, isR := in.(*ssa.Return)
 				if !isR || !engine.ReturnsFreshError(rt) {
@@ -347,7 +347,7 @@ func r15_4(r *Report, p *Program) {
 	r.Check(rule, "customize[cache-key]", "-", okK, "Get and Set keyed (parent UID, parent generation)", sf("cache keys differ or are not (UID, generation): %v", keys))
 	if f := fn(r, p, rule, "controller/common/customize.NewCustomizeManager"); f != nil {
 		ok := false
-		for _, b := range f.Blocks {
+		for _, b := range engine.BlocksInl(f) {
 			for _, in := range b.Instrs {
 				if st, isS := in.(*ssa.Store); isS && strings.HasSuffix(E(st.Addr), ".customizeCache") {
 					c := callOf(st.Val)
